@@ -37,7 +37,8 @@ ASSUMPTIONS = [
     'differences are not judged',
 ]
 OPS = ['mapping', 'mapping', 'mapping', 'stats', 'refmarkers', 'pmask', 'pmask_markers', 'qmarkers', 'validate',
-       'validate']
+       'validate', 'otf', 'otf']
+MAPPING_RUNS = ('mapping', 'otf')      # the stages the property calls "a mapping run" (clean after an error too)
 STALE = [
     ('d', 'result_buffer_STALE/results_buffer_OLD/0_2_assignment.json', b'[{"cell_id": "ghost"}]'),
     ('d', 'result_buffer_STALE2/0_3_assignment.json', b'[{"cell_id": "ghost2"}]'),
@@ -72,6 +73,14 @@ def gen_op(rng, n_query, allow_nested=True):
                      'tmp_dir_none': rng.random() < 0.12, 'obsm': rng.random() < 0.15,
                      'encoding': rng.choice(['csr', 'csc', 'dense']),
                      'flatten': rng.random() < 0.15}
+    elif stage == 'otf':
+        # mapping with on-the-fly markers: three pools in one run, its own directory inside the scratch space
+        op['cfg'] = {'chunk_size': rng.randint(1, max(1, n_query // 2)), 'n_runners_up': rng.randint(0, 2),
+                     'bootstrap_iteration': rng.choice([1, 3]), 'bootstrap_factor': rng.choice([1.0, 0.6]),
+                     'min_markers': 1, 'rng_seed': rng.randrange(2 ** 31), 'cloud_safe': rng.random() < 0.3,
+                     'encoding': rng.choice(['csr', 'csc', 'dense']), 'flatten': rng.random() < 0.15,
+                     'n_valid': rng.choice([5, 10]), 'n_per_utility': rng.randint(1, 3)}
+        op['n_processors'] = rng.randint(2, 3)
     elif stage == 'stats':
         op['cfg'] = {'rows_at_a_time': rng.randint(1, 9), 'copy_data_over': rng.random() < 0.4}
     elif stage in ('refmarkers', 'pmask', 'pmask_markers'):
@@ -85,7 +94,7 @@ def gen_op(rng, n_query, allow_nested=True):
                      'chain': rng.random() < 0.5}
     r = rng.random()
     if r < 0.3:
-        op['fault'] = {'kind': 'worker', 'worker': rng.randint(0, 3), 'mode': rng.choice(['kill', 'exit', 'raise']),
+        op['fault'] = {'kind': 'worker', 'worker': rng.randint(0, 3) if stage != 'otf' else rng.randint(0, 11), 'mode': rng.choice(['kill', 'exit', 'raise']),
                        'point': rng.choice(['before', 'mid', 'after']), 'k': rng.randint(1, 3),
                        'code': rng.choice([1, 2, 3])}
     elif r < 0.36:
@@ -184,6 +193,8 @@ def op_outputs(op, out_dir):
     if st == 'mapping':
         return {'json': os.path.join(out_dir, t + '.json'), 'h5': os.path.join(out_dir, t + '.h5'),
                 'csv': os.path.join(out_dir, t + '.csv'), 'log': os.path.join(out_dir, t + '.log')}
+    if st == 'otf':
+        return {'json': os.path.join(out_dir, t + '_otf.json'), 'csv': os.path.join(out_dir, t + '_otf.csv')}
     if st == 'stats':
         return {'stats': os.path.join(out_dir, t + '_stats.h5')}
     if st == 'refmarkers':
@@ -231,6 +242,14 @@ def call_op(sb, ctx, op, out_dir, scratch, sched, clean=False):
         elif what == 'csv_dir_missing':
             dcfg['csv_result_path'] = os.path.join(out_dir, 'no_such_dir', op['tag'] + '.csv')
         return harness.run_call(sched, drivers.run_mapping, dcfg)
+    if st == 'otf':
+        dcfg = drivers.otf_config(
+            sb.p('in', 'query_%s.h5ad' % cfg['encoding']), ctx['stats'], out_dir, scratch, tag=op['tag'] + '_otf',
+            n_processors=max(2, npr), chunk_size=cfg['chunk_size'], n_runners_up=cfg['n_runners_up'],
+            bootstrap_iteration=cfg['bootstrap_iteration'], bootstrap_factor=cfg['bootstrap_factor'],
+            min_markers=cfg['min_markers'], rng_seed=cfg['rng_seed'], cloud_safe=cfg['cloud_safe'],
+            flatten=cfg['flatten'], n_valid=cfg['n_valid'], n_per_utility=cfg['n_per_utility'])
+        return harness.run_call(sched, drivers.run_otf, dcfg)
     if st == 'stats':
         return harness.run_call(sched, drivers.run_precompute, [ctx['ref']], ctx['tax_dict'], o['stats'], scratch,
                                 rows_at_a_time=cfg['rows_at_a_time'], n_processors=max(2, npr),
@@ -296,6 +315,10 @@ def op_digest(op, out_dir, outcome):
             with open(o['csv']) as f:
                 rows = [ln for ln in f.read().splitlines() if not ln.startswith('#')]
             return [harness.json_digest(o['json']), harness.h5_digest(o['h5']), model.canonical_json(rows)]
+        if st == 'otf':
+            with open(o['csv']) as f:
+                rows = [ln for ln in f.read().splitlines() if not ln.startswith('#')]
+            return [harness.json_digest(o['json']), model.canonical_json(rows)]
         if st == 'qmarkers':
             return harness.json_digest(o['qm'])
         if st == 'validate':
@@ -505,8 +528,8 @@ def run(scn, sb):
             scratch_after = sb.listing('scratch')
             extra = sorted(set(scratch_after) - set(scratch_before))
             gone = sorted(set(scratch_before) - set(scratch_after))
-            judged = out[0] == 'ok' or op['stage'] == 'mapping'
-            if nested_result and not (nested_result['out'][0] == 'ok' or op['nested']['op']['stage'] == 'mapping'):
+            judged = out[0] == 'ok' or op['stage'] in MAPPING_RUNS
+            if nested_result and not (nested_result['out'][0] == 'ok' or op['nested']['op']['stage'] in MAPPING_RUNS):
                 judged = False
             if extra or gone:
                 if judged:
